@@ -25,6 +25,9 @@ fn arg_variants() -> Vec<Vec<u8>> {
         b" /".to_vec(),
         b" /usr/pkg/".to_vec(),
         b" 0644".to_vec(),
+        // arguments are kept byte for byte: numbers are not re-spelt, names not normalised
+        b" 644".to_vec(), b" 0".to_vec(), b" +644".to_vec(), b" 00644".to_vec(), b" 7777".to_vec(), b" 10000".to_vec(),
+        b" ./x//y/".to_vec(), b" A b  c ".to_vec(),
     ]
 }
 
@@ -90,6 +93,16 @@ fn gen_c14(tier: &str, rng: &mut Rng, emit: &mut dyn FnMut(Op)) {
         emit(Op::new("plist.entry", &[l]));
         emit(Op::new("plist.parse", &[l]));
     }
+    // an unparsable LAST line, terminated or not, after lines that parsed
+    for bad in [&b"@pkgd"[..], b"@name", b"@ignore x", b"@name \xff", b"@option x", b"@"] {
+        for pre in [&b"bin/foo\n"[..], b"@name a-1\nbin/foo\n", b""] {
+            let mut d = pre.to_vec();
+            d.extend(bad);
+            emit(Op::new("plist.parse", &[&d]));
+            d.push(b'\n');
+            emit(Op::new("plist.parse", &[&d]));
+        }
+    }
     // documents of 0..8 lines, each with and without final newline, LF and CRLF
     for _ in 0..(if thorough { 30000 } else { 2500 }) {
         let n = rng.range(0, 8);
@@ -110,7 +123,9 @@ fn gen_c14(tier: &str, rng: &mut Rng, emit: &mut dyn FnMut(Op)) {
 
 fn gen_c15(tier: &str, rng: &mut Rng, emit: &mut dyn FnMut(Op)) {
     let thorough = tier == "thorough";
-    let kinds: [&[u8]; 48] = [
+    let kinds: [&[u8]; 54] = [
+        // the same directory named by @pkgdir and @dirrm; numeric @mode spellings
+        b"@dirrm share/x", b"@pkgdir share/y", b"@mode 644", b"@mode 0", b"@mode +644", b"@mode 00644",
         // @cwd arguments combining features: non-UTF-8 AND a trailing '/', blanks, only '/'
         b"@cwd /opt/bl\xf8t/", b"@cwd \xe9/", b"@cwd /caf\xc3\xa9/", b"@cwd //", b"@cwd /a b/", b"@cwd /opt/bl\xf8t",
         // file entries named like package metadata files are ordinary files unless @ignore'd
